@@ -22,8 +22,11 @@ PROP = dict(
          "both modes, unbuffered and buffered channel, 3-30 lists), during the ASCII EOF sleep, across the reconnect, with cancellation "
          "inside the wait, and 40-60 lists of 20-50 kB across two losses (writer inside conn.Write when the connection goes); plus n "
          "random scripts (loss kind, pause, traffic drawn at random). EQ = the observed trace is accepted by the LTS (set-of-states "
-         "simulation; the panel's bytes fed one by one, the model clock following the trace timestamps); H = the monitors of "
-         "Spec/LifecycleSpec.lean on the trace; distinct = distinct script text. The garbage collector is held back while scripts "
+         "simulation; the panel's bytes fed one by one, the model clock following the trace timestamps; the goroutine census taken "
+         "just before the cancellation is bounded by the goroutines the model has alive, and the panel sees connection k closing no "
+         "later than 300 ms after the k-th disconnect callback - the model closes before it calls back; both are comparisons with "
+         "the model, no longer clauses of the monitor: the property speaks of goroutines and sockets AFTER cancellation only); "
+         "H = the monitors of Spec/LifecycleSpec.lean on the trace (only what the property text states); distinct = distinct script text. The garbage collector is held back while scripts "
          "run (a forgotten socket is not closed by a finalizer behind the monitor's back)",
     trusted_base=["Go scheduler, memory model, kernel TCP and the wall clock are outside the model (LTS labels / trace timestamps with tolerances)",
                   "atomicity of one LTS label = one Go statement group"],
@@ -66,7 +69,11 @@ CLAIM = dict(
          "every writer goroutine has exited; for the pinned accounting the negation is proved on a concrete execution "
          "(C11.late_wg_add_counterexample). Tie to the code: trace validation - the real client is run against scripted loopback panels, "
          "every observed trace must be accepted by the LTS (bytes, clock and all) and satisfy the independent monitors (callbacks, "
-         "deliveries, retry timing, bounded return, wg.Wait, no library goroutine left, every accepted socket closed).",
+         "deliveries, retry timing, bounded return, wg.Wait, no library goroutine left, every accepted socket closed). The numbers the "
+         "monitors use (default retry periods 3 s / 1 s, 2 s probe window and 1 s ASCII wind-down in the return bound) are their own; "
+         "C11.constants_are_those_of_the_monitor proves by decide that the constants regenerated from the source are these and "
+         "C11.model_periods_are_the_monitors that the model's periods are the monitor's for every configuration, so a changed default "
+         "in the source breaks an obligation instead of shifting the monitor.",
     note=TB + "PARTIAL: proof of the lifecycle logic as an LTS over all interleavings + trace validation against the real client. Outside the "
          "model: the Go scheduler (the traces show only the schedules the runtime took; the late-start schedule needs the verif parking hook), "
          "the Go memory model, kernel TCP (FIN/RST), real time beyond the two retry waits (the 2 s probe, the 1 s ASCII EOF sleep and the 2 s "
